@@ -437,23 +437,37 @@ theorem safe_particle_set_add (K1 : Nat) (L1 : Layout) (K2 : Nat) (L2 : Layout) 
 
 /-! ## Resampling -/
 
-theorem safe_resample (N : Nat) (I : Layout) (rN : Nat) (R : Layout) (plen : Nat) (h : rsValid N I rN R plen) :
-    (rsCase N I rN R plen).Safe := by
+/-- `Resampling::resample` for ANY weight vector of the right shape: `gt j idx` (the comparison `u_j > csw(idx)`) is an
+    arbitrary function — un-normalised weights, exponentials summing to less or more than one, -inf, underflow, NaN.
+    The end clamp `idx_csw < N - 1` of the scan is what keeps `state / mean / covariance(idx_csw)` inside the set. -/
+theorem safe_resample (N : Nat) (I : Layout) (rN : Nat) (R : Layout) (plen : Nat) (gt : Nat → Nat → Bool)
+    (h : rsValid N I rN R plen) : (rsCase N I rN R plen gt).Safe := by
   obtain ⟨hN, _, hR, hrN, hp⟩ := h
   rw [hR, hrN, hp]
   unfold rsCase
   simp only [safe_bind, safe_pure, and_true]
-  exact resample_safe I N hN
+  exact resample_safe I N gt hN
+
+/-- The same function with the scan NOT clamped (e.g. `std::lower_bound` over the cumulative weights with no end check):
+    with weights whose exponentials sum to less than the last comb point every comparison says "advance", the index
+    reaches `N` and particle `N` of an `N`-particle set is read.  4 particles, 2 linear states. -/
+theorem unsafe_unclamped_resample_counterexample :
+    rsValid 4 ⟨2, 0, false, 0⟩ 4 ⟨2, 0, false, 0⟩ 4 ∧
+    ¬ (resampleGen false ⟨2, 0, false, 0⟩ 4 ⟨2, 0, false, 0⟩ 4 4 (fun _ _ => true)).Safe ∧
+    (resampleGen true ⟨2, 0, false, 0⟩ 4 ⟨2, 0, false, 0⟩ 4 4 (fun _ _ => true)).Safe := by decide
+
+/-- with normalised weights (`u_j > csw(idx)` iff `idx < j` for uniform weights) the unclamped scan is indistinguishable -/
+example : (resampleGen false ⟨2, 0, false, 0⟩ 4 ⟨2, 0, false, 0⟩ 4 4 (weightOracle 0)).Safe := by decide
 
 /-- `ResamplingWithPrior::resample`: any particle count ≥ 1, any prior ratio in [0, 1), Euler and quaternion layouts,
-    any initialisation grid. -/
-theorem safe_resample_with_prior (N rnum rden : Nat) (I : Layout) (nx ny plen : Nat) (h : rwpValid N rnum rden I plen) :
-    (rwpCase N rnum rden I nx ny plen).Safe := by
+    any initialisation grid, any weights (the comparisons inside the embedded `Resampling::resample` are arbitrary). -/
+theorem safe_resample_with_prior (N rnum rden : Nat) (I : Layout) (nx ny plen : Nat) (gt : Nat → Nat → Bool)
+    (h : rwpValid N rnum rden I plen) : (rwpCase N rnum rden I nx ny plen gt).Safe := by
   obtain ⟨hN, _, _, hr, hp⟩ := h
   rw [hp]
   unfold rwpCase
   simp only [safe_bind, safe_pure, and_true]
-  exact resampleWithPrior_safe I N rnum rden nx ny hN hr
+  exact resampleWithPrior_safe I N rnum rden nx ny gt hN hr
 
 /-! ## EstimatesExtraction -/
 
